@@ -49,22 +49,24 @@ func mediaFor(format string) []string {
 }
 
 type c17Limits struct {
-	exhaustive  int // exhaustive single split up to this document size
-	sampled     int // sampled single splits beyond
-	randomPlans int
-	genPerFmt   int
-	mutants     int
-	largeSizes  []int
+	pairs           int // seeded pairs of split points per document (0: none)
+	pairsExhaustive int // every pair of split points up to this document size
+	exhaustive      int // exhaustive single split up to this document size
+	sampled         int // sampled single splits beyond
+	randomPlans     int
+	genPerFmt       int
+	mutants         int
+	largeSizes      []int
 }
 
 func c17LimitsFor(tier string) c17Limits {
 	if tier == "thorough" {
-		return c17Limits{exhaustive: 12000, sampled: 1500, randomPlans: 60, genPerFmt: 60, mutants: 400, largeSizes: []int{70000, 140000, 200000}}
+		return c17Limits{exhaustive: 12000, sampled: 1500, randomPlans: 60, genPerFmt: 60, mutants: 400, largeSizes: []int{70000, 140000, 200000}, pairs: 300, pairsExhaustive: 260}
 	}
 	if tier == "smoke" { // determinism self-test only
 		return c17Limits{exhaustive: 1200, sampled: 40, randomPlans: 4, genPerFmt: 2, mutants: 12}
 	}
-	return c17Limits{exhaustive: 6000, sampled: 300, randomPlans: 10, genPerFmt: 8, mutants: 40, largeSizes: []int{70000}}
+	return c17Limits{exhaustive: 6000, sampled: 300, randomPlans: 10, genPerFmt: 8, mutants: 40, largeSizes: []int{70000}, pairs: 12}
 }
 
 // structureOffsets returns split offsets aligned to the format's structure.
@@ -154,6 +156,21 @@ func plansFor(d corpus.Doc, lim c17Limits, r *prng.R) []simio.ReadPlan {
 	}
 	for _, k := range offs {
 		ps = append(ps, simio.ReadPlan{Name: "split-1-rest", Chunks: []int{k, 1}})
+	}
+	// 1c. two split points (three deliveries): exhaustive for tiny documents, seeded pairs otherwise
+	if lim.pairs > 0 {
+		if n <= lim.pairsExhaustive {
+			for k1 := 1; k1 < n; k1++ {
+				for k2 := k1 + 1; k2 <= n; k2++ {
+					ps = append(ps, simio.ReadPlan{Name: "split2", Chunks: []int{k1, k2 - k1}})
+				}
+			}
+		} else {
+			for i := 0; i < lim.pairs; i++ {
+				k1 := r.Intn(n + 1)
+				ps = append(ps, simio.ReadPlan{Name: "split2", Chunks: []int{k1, r.Range(1, 1+(n-k1))}})
+			}
+		}
 	}
 	// 2. uniform granularities
 	ps = append(ps, simio.ReadPlan{Name: "one-byte", Rest: 1}, simio.ReadPlan{Name: "half", Half: true})
